@@ -419,7 +419,8 @@ PLAN["C13"] = dict(
 
 PLAN["C02"] = dict(
     level="other",
-    functions=[(CONV, "unstable_to_stable"), (CONV, "stable_to_unstable"), (CONV, "to_stable"), (CONV, "to_unstable#bare"), (CONV, "to_unstable#intervals"), (CONV, "merge_nodes")],
+    functions=[(CONV, "unstable_to_stable"), (CONV, "stable_to_unstable"), (CONV, "to_stable"), (CONV, "to_unstable#bare"), (CONV, "to_unstable#intervals"), (CONV, "merge_nodes"),
+               (GFA, "GFA.get_path")],  # get_path: the per-contig lists handed to the converters are sorted by SO whatever the order of the S lines
     explanation="PROVED: both streaming generators yield exactly one converted record per parsed record, in input order (loop invariant for any "
                 "number of records); to_stable copies columns 1-4 and 10-12, keeps every optional field other than cg:Z: with its value and "
                 "position, invents no field (a record without CIGAR gets none), and reverses cg:Z: iff the strand flips (part of the whole-function "
